@@ -159,14 +159,15 @@ theorem drop4_be32_append (n : Nat) (x : Bytes) : (be32 n ++ x).drop 4 = x := by
   rfl
 
 theorem read_etm {p : Prims} (W : Laws p) (r : Receiver p) (se sd : p.CSt) (mk : p.MKey)
-    (hr : r.ciph = .etm sd mk) (hP : W.Paired se sd) (hblk : W.blk se = r.block) (hmac : MacOk p mk r.macLen)
+    (hP : W.Paired se sd) (hblk : W.blk se = r.block) (hmac : MacOk p mk r.macLen)
     (h4 : 4 ≤ r.block) (bodyB : Bytes) (hps : bodyB.length < 4294967296) (hal : bodyB.length % r.block = 0)
     (hpos : 0 < bodyB.length) (t : Bytes) :
-    runBuf (readMessage r)
-      ((be32 bodyB.length ++ (p.enc se bodyB).2
-        ++ (p.mac mk (be32 r.seq ++ (be32 bodyB.length ++ (p.enc se bodyB).2))).take r.macLen) ++ t)
-    = runBuf (liftE (finish r (.etm (p.dec sd (p.enc se bodyB).2).1 mk) bodyB.length bodyB
-        (some ⟨r.seq, [], be32 bodyB.length ++ (p.enc se bodyB).2⟩))) t := by
+    ∃ hdr rest, hdr.length = r.block ∧
+      (be32 bodyB.length ++ (p.enc se bodyB).2
+        ++ (p.mac mk (be32 r.seq ++ (be32 bodyB.length ++ (p.enc se bodyB).2))).take r.macLen) ++ t = hdr ++ rest ∧
+      runBuf (readEtm r sd mk hdr) rest
+        = runBuf (liftE (finish r (.etm (p.dec sd (p.enc se bodyB).2).1 mk) bodyB.length bodyB
+            (some ⟨r.seq, [], be32 bodyB.length ++ (p.enc se bodyB).2⟩))) t := by
   generalize hct : (p.enc se bodyB).2 = ct
   have hctl : ct.length = bodyB.length := by
     rw [← hct]; exact W.ciph.enc_len se bodyB (by rw [hblk]; exact hal)
@@ -174,25 +175,415 @@ theorem read_etm {p : Prims} (W : Laws p) (r : Receiver p) (se sd : p.CSt) (mk :
   generalize htag : (p.mac mk (be32 r.seq ++ (be32 bodyB.length ++ ct))).take r.macLen = tag
   have htl : tag.length = r.macLen := by
     rw [← htag, List.length_take]; exact Nat.min_eq_left (hmac _)
-  have hsplit : (be32 bodyB.length ++ ct ++ tag) ++ t
-      = (be32 bodyB.length ++ ct.take (r.block - 4)) ++ (ct.drop (r.block - 4) ++ (tag ++ t)) := by
-    simp only [List.append_assoc]
+  refine ⟨be32 bodyB.length ++ ct.take (r.block - 4), ct.drop (r.block - 4) ++ (tag ++ t), ?_, ?_, ?_⟩
+  · simp [be32, List.length_take]; omega
+  · simp only [List.append_assoc]
     rw [← List.append_assoc (ct.take _), List.take_append_drop]
-  rw [hsplit]
+  · unfold readEtm
+    have hhl : ¬ (be32 bodyB.length ++ ct.take (r.block - 4)).length < 4 := by simp [be32]
+    rw [if_neg hhl]
+    simp only
+    rw [take4_be32_append, beVal_be32 _ hps]
+    rw [runBuf_read _ _ _ _ (by unfold remainingEtm; simp [List.length_drop]; omega)]
+    rw [runBuf_read _ _ _ _ (by rw [htl])]
+    rw [drop4_be32_append, List.take_append_drop, List.append_assoc, htag, ctEq_refl]
+    simp only [if_true]
+    have hd := (W.ciph.dec_enc se sd bodyB hP (by rw [hblk]; exact hal)).1
+    rw [hct] at hd
+    rw [hd]
+
+theorem read_aead {p : Prims} (W : Laws p) (r : Receiver p) (k : p.AKey) (iv iv' : Bytes)
+    (hml : r.macLen = W.tagLen) (h4 : 4 ≤ r.block) (bodyB : Bytes) (hps : bodyB.length < 4294967296)
+    (hal : bodyB.length % r.block = 0) (hpos : 0 < bodyB.length) (hiv : incIv iv = .ok iv') (t : Bytes) :
+    ∃ hdr rest, hdr.length = r.block ∧
+      (be32 bodyB.length ++ p.aenc k iv bodyB (be32 bodyB.length)) ++ t = hdr ++ rest ∧
+      runBuf (readAead r k iv hdr) rest
+        = runBuf (liftE (finish r (.aead k iv') bodyB.length bodyB
+            (some ⟨r.seq, iv, be32 bodyB.length ++ p.aenc k iv bodyB (be32 bodyB.length)⟩))) t := by
+  generalize hct : p.aenc k iv bodyB (be32 bodyB.length) = ct
+  have hctl : ct.length = bodyB.length + W.tagLen := by rw [← hct]; exact W.aead.aenc_len _ _ _ _
+  have hge : r.block ≤ bodyB.length := Nat.le_of_dvd hpos (Nat.dvd_of_mod_eq_zero hal)
+  refine ⟨be32 bodyB.length ++ ct.take (r.block - 4), ct.drop (r.block - 4) ++ t, ?_, ?_, ?_⟩
+  · simp [be32, List.length_take]; omega
+  · simp only [List.append_assoc]
+    rw [← List.append_assoc (ct.take _), List.take_append_drop]
+  · unfold readAead
+    have hhl : ¬ (be32 bodyB.length ++ ct.take (r.block - 4)).length < 4 := by simp [be32]
+    rw [if_neg hhl]
+    simp only
+    rw [take4_be32_append, beVal_be32 _ hps]
+    rw [runBuf_read _ _ _ _ (by unfold remainingAead; simp [List.length_drop]; omega)]
+    rw [drop4_be32_append, List.take_append_drop]
+    have hd := W.aead.adec_aenc k iv bodyB (be32 bodyB.length)
+    rw [hct] at hd
+    rw [hd]
+    simp only
+    rw [hiv]
+
+theorem badBlocking_false (len block : Nat) (hal : (4 + len) % block = 0) (hge : block - 4 ≤ len) (h4 : 4 ≤ block) :
+    badBlocking len (block - 4) block = false := by
+  unfold badBlocking
+  have h1 : ((len : Int) - ((block - 4 : Nat) : Int)) = ((4 + len - block : Nat) : Int) := by
+    have : block ≤ 4 + len := by omega
+    omega
+  have h2 : (4 + len - block) % block = 0 := by
+    have hd : block ∣ 4 + len - block := Nat.dvd_sub (Nat.dvd_of_mod_eq_zero hal) (Nat.dvd_refl block)
+    exact Nat.mod_eq_zero_of_dvd hd
+  rw [h1, ← Int.natCast_emod, h2]
+  simp
+
+theorem read_plain {p : Prims} (r : Receiver p) (hml : r.macLen = 0) (h4 : 4 ≤ r.block) (bodyB : Bytes)
+    (hps : bodyB.length < 4294967296) (hal : (4 + bodyB.length) % r.block = 0) (t : Bytes) :
+    ∃ hdr rest, hdr.length = r.block ∧ (be32 bodyB.length ++ bodyB) ++ t = hdr ++ rest ∧
+      runBuf (readPlain r hdr) rest = runBuf (liftE (finish r .plain bodyB.length bodyB none)) t := by
+  have hge : r.block ≤ 4 + bodyB.length := Nat.le_of_dvd (by omega) (Nat.dvd_of_mod_eq_zero hal)
+  refine ⟨be32 bodyB.length ++ bodyB.take (r.block - 4), bodyB.drop (r.block - 4) ++ t, ?_, ?_, ?_⟩
+  · simp [be32, List.length_take]; omega
+  · simp only [List.append_assoc]
+    rw [← List.append_assoc (bodyB.take _), List.take_append_drop]
+  · unfold readPlain
+    have hhl : ¬ (be32 bodyB.length ++ bodyB.take (r.block - 4)).length < 4 := by simp [be32]
+    rw [if_neg hhl]
+    simp only
+    rw [take4_be32_append, beVal_be32 _ hps, drop4_be32_append]
+    have hll : (bodyB.take (r.block - 4)).length = r.block - 4 := by rw [List.length_take]; omega
+    rw [hll, badBlocking_false _ _ hal (by omega) h4]
+    simp only [Bool.false_eq_true, if_false]
+    rw [runBuf_read _ _ _ _ (by unfold classicSize; rw [hml]; simp [List.length_drop]; omega)]
+    have : bodyB.length - (r.block - 4) = (bodyB.drop (r.block - 4)).length := by simp
+    rw [this, List.take_length, List.take_append_drop]
+
+theorem read_classic {p : Prims} (W : Laws p) (r : Receiver p) (se sd : p.CSt) (mk : p.MKey)
+    (hP : W.Paired se sd) (hblk : W.blk se = r.block) (hmac : MacOk p mk r.macLen)
+    (h4 : 4 ≤ r.block) (bodyB : Bytes) (hps : bodyB.length < 4294967296)
+    (hal : (4 + bodyB.length) % r.block = 0) (t : Bytes) :
+    ∃ hdr rest sd', hdr.length = r.block ∧
+      ((p.enc se (be32 bodyB.length ++ bodyB)).2
+        ++ (p.mac mk (be32 r.seq ++ (be32 bodyB.length ++ bodyB))).take r.macLen) ++ t = hdr ++ rest ∧
+      W.Paired (p.enc se (be32 bodyB.length ++ bodyB)).1 sd' ∧
+      runBuf (readClassic r sd mk hdr) rest
+        = runBuf (liftE (finish r (.classic sd' mk) bodyB.length bodyB
+            (if r.macLen > 0 then some ⟨r.seq, [], be32 bodyB.length ++ bodyB⟩ else none))) t := by
+  have hbpos : 0 < r.block := by omega
+  have hge : r.block ≤ 4 + bodyB.length := Nat.le_of_dvd (by omega) (Nat.dvd_of_mod_eq_zero hal)
+  generalize htag : (p.mac mk (be32 r.seq ++ (be32 bodyB.length ++ bodyB))).take r.macLen = tag
+  have htl : tag.length = r.macLen := by
+    rw [← htag, List.length_take]; exact Nat.min_eq_left (hmac _)
+  -- split the plaintext packet at the first block
+  have hsplit : be32 bodyB.length ++ bodyB
+      = (be32 bodyB.length ++ bodyB.take (r.block - 4)) ++ bodyB.drop (r.block - 4) := by
+    rw [List.append_assoc, List.take_append_drop]
+  generalize hA : be32 bodyB.length ++ bodyB.take (r.block - 4) = A at hsplit
+  generalize hB : bodyB.drop (r.block - 4) = B at hsplit
+  have hAl : A.length = r.block := by rw [← hA]; simp [be32, List.length_take]; omega
+  have hBl : B.length = 4 + bodyB.length - r.block := by rw [← hB]; simp; omega
+  have hAal : A.length % W.blk se = 0 := by rw [hAl, hblk]; exact Nat.mod_self _
+  have hBal : B.length % r.block = 0 := by
+    rw [hBl]
+    exact Nat.mod_eq_zero_of_dvd (Nat.dvd_sub (Nat.dvd_of_mod_eq_zero hal) (Nat.dvd_refl _))
+  have henc : p.enc se (be32 bodyB.length ++ bodyB)
+      = ((p.enc (p.enc se A).1 B).1, (p.enc se A).2 ++ (p.enc (p.enc se A).1 B).2) := by
+    rw [hsplit]; exact W.ciph.enc_app se A B hAal
+  rw [henc]
+  generalize heA : p.enc se A = eA at *
+  have hblk1 : W.blk eA.1 = r.block := by rw [← heA, W.ciph.blk_enc]; exact hblk
+  generalize heB : p.enc eA.1 B = eB at *
+  have heAl : eA.2.length = r.block := by rw [← heA, W.ciph.enc_len se A hAal]; exact hAl
+  have heBl : eB.2.length = B.length := by
+    rw [← heB]; exact W.ciph.enc_len eA.1 B (by rw [hblk1]; exact hBal)
+  have hd1 := W.ciph.dec_enc se sd A hP hAal
+  rw [heA] at hd1
+  obtain ⟨hd1v, hd1p⟩ := hd1
+  have hd2 := W.ciph.dec_enc eA.1 (p.dec sd eA.2).1 B hd1p (by rw [hblk1]; exact hBal)
+  rw [heB] at hd2
+  obtain ⟨hd2v, hd2p⟩ := hd2
+  refine ⟨eA.2, eB.2 ++ (tag ++ t), (p.dec (p.dec sd eA.2).1 eB.2).1, heAl, ?_, hd2p, ?_⟩
+  · simp only [List.append_assoc]
+  · unfold readClassic
+    simp only
+    rw [hd1v]
+    have hhl : ¬ A.length < 4 := by omega
+    rw [if_neg hhl]
+    have hA4 : A.take 4 = be32 bodyB.length := by rw [← hA]; exact take4_be32_append _ _
+    have hAd : A.drop 4 = bodyB.take (r.block - 4) := by rw [← hA]; exact drop4_be32_append _ _
+    rw [hA4, beVal_be32 _ hps, hAd]
+    have hll : (bodyB.take (r.block - 4)).length = r.block - 4 := by rw [List.length_take]; omega
+    rw [hll, badBlocking_false _ _ hal (by omega) h4]
+    simp only [Bool.false_eq_true, if_false]
+    rw [← List.append_assoc]
+    rw [runBuf_read _ _ _ _ (by unfold classicSize; simp [heBl, hBl, htl]; omega)]
+    have hx : bodyB.length - (r.block - 4) = eB.2.length := by rw [heBl, hBl]; omega
+    rw [hx, List.take_left, List.drop_left, hd2v, ← hB, List.take_append_drop]
+    by_cases hm : r.macLen > 0
+    · simp only [hm, if_true]
+      rw [List.append_assoc, htag]
+      have : tag.take r.macLen = tag := by rw [← htl]; exact List.take_length
+      rw [this, ctEq_refl]
+      simp only [if_true]
+    · simp only [hm, if_false]
+
+/-! ## one message: what the paired receiver makes of the sender's packet -/
+
+theorem readMessage_step {p : Prims} (r : Receiver p) (hdr rest : Bytes) (h : hdr.length = r.block) :
+    runBuf (readMessage r) (hdr ++ rest)
+      = runBuf (match r.ciph with
+          | .etm st mk => readEtm r st mk hdr
+          | .aead k iv => readAead r k iv hdr
+          | .plain => readPlain r hdr
+          | .classic st mk => readClassic r st mk hdr) rest := by
   unfold readMessage
-  rw [runBuf_read _ _ _ _ (by simp [be32, List.length_take]; omega)]
-  trace_state
-  have hhl : ¬ (be32 bodyB.length ++ ct.take (r.block - 4)).length < 4 := by simp [be32]
-  rw [if_neg hhl, take4_be32_append, beVal_be32 _ hps, hr]
-  simp only
-  rw [runBuf_read _ _ _ _ (by unfold remainingEtm; simp [List.length_drop]; omega)]
-  simp only
-  rw [runBuf_read _ _ _ _ (by rw [htl])]
-  simp only
-  rw [drop4_be32_append, List.take_append_drop, ← List.append_assoc, htag, ctEq_refl]
-  simp only [if_true]
-  have hd := (W.ciph.dec_enc se sd bodyB hP (by rw [hblk]; exact hal)).1
-  rw [hct] at hd
-  rw [hd]
+  rw [runBuf_read _ _ _ _ (by rw [h])]
+  rfl
+
+theorem roundtrip1 {p : Prims} (W : Laws p) {s : Sender p} {r : Receiver p} (hp : PairedSt W s r)
+    {d rnd : Bytes} {o : SendOut p} (hs : sendMessage s d rnd = .ok o) (t : Bytes) :
+    ∃ o' c body, d = c :: body ∧ runBuf (readMessage r) (o.wire ++ t) = .ok o' t ∧
+      o'.msg = ⟨c, body, s.seq⟩ ∧ o'.auth = o.auth ∧ PairedSt W o.st o'.st := by
+  obtain ⟨hd, hroll, P, cc, a, hb, hen, hauth, hst⟩ := sendMessage_ok hs
+  obtain ⟨hb0, hB⟩ := buildPacket_ok hb
+  obtain ⟨padding, hpl, hsh⟩ := hB.shape
+  obtain ⟨c, body, rfl⟩ : ∃ c body, d = c :: body := by
+    cases d with
+    | nil => exact absurd rfl hd
+    | cons c body => exact ⟨c, body, rfl⟩
+  have hpad : padding.length < 256 := by rw [hpl]; have := hB.pad_le; omega
+  -- the plaintext packet is `be32 |bodyB| ++ bodyB`
+  generalize hbb : UInt8.ofNat padding.length :: ((compOut s.comp (c :: body)).2 ++ padding) = bodyB
+  have hbl : bodyB.length = (compOut s.comp (c :: body)).2.length + padding.length + 1 := by
+    rw [← hbb]; simp only [List.length_cons, List.length_append]
+  have hPeq : P = be32 bodyB.length ++ bodyB := by
+    rw [hsh, hbl, ← hbb, ← hpl]; simp
+  have hps : bodyB.length < 4294967296 := by rw [hbl, hpl]; exact hB.psize_lt
+  have hpos : 0 < bodyB.length := by omega
+  have h4 : 4 ≤ r.block := by rw [← hp.block]; exact hp.blk4
+  have hfin := fun (c' : InC p) (a' : Option Auth) =>
+    finish_roundtrip W hp.comp hp.seq hp.kex c body hroll padding hpad c' a'
+  rw [hbb, ← hbl] at hfin
+  have hpc := hp.ciph
+  unfold encrypt at hen
+  cases hsc : s.ciph with
+  | plain =>
+    cases hrc : r.ciph with
+    | plain =>
+      rw [hsc, hrc] at hpc
+      rw [hsc] at hen hpl
+      simp only [OutC.addlen] at hpl
+      simp only at hen
+      have hw : o.wire = P := by
+        have := Except.ok.inj hen; simp only [Prod.mk.injEq] at this; exact this.2.1.symm
+      have hcc : cc = .plain := by
+        have := Except.ok.inj hen; simp only [Prod.mk.injEq] at this; exact this.1.symm
+      have ha : a = none := by
+        have := Except.ok.inj hen; simp only [Prod.mk.injEq] at this; exact this.2.2.symm
+      have hal : (4 + bodyB.length) % r.block = 0 := by
+        rw [hbl, hpl, ← hp.block]; exact classic_total_mod _ _ hb0
+      obtain ⟨hdr, rest, hhl, hsp, hrun⟩ := read_plain r (by rw [← hp.macLen]; exact hpc) h4 bodyB hps hal t
+      obtain ⟨z', hf, hz⟩ := hfin .plain none
+      refine ⟨{ st := { r with ciph := .plain, decomp := z', seq := nextSeq r.seq },
+                msg := ⟨c, body, r.seq⟩, auth := none }, c, body, rfl, ?_, ?_, ?_, ?_⟩
+      · rw [hw, hPeq, hsp, readMessage_step r hdr rest hhl, hrc]
+        simp only
+        rw [hrun, hf]; rfl
+      · simp only; rw [hp.seq]
+      · simp only; rw [hauth, ha]
+      · rw [hst, hcc]
+        exact ⟨hp.block, hp.macLen, by simp only; rw [hp.seq], hp.kex, hp.blk4, by simp only; exact hpc, hz⟩
+    | classic _ _ => rw [hsc, hrc] at hpc; exact absurd hpc (by simp [CiphPaired])
+    | etm _ _ => rw [hsc, hrc] at hpc; exact absurd hpc (by simp [CiphPaired])
+    | aead _ _ => rw [hsc, hrc] at hpc; exact absurd hpc (by simp [CiphPaired])
+  | classic se mk =>
+    cases hrc : r.ciph with
+    | classic sd mk' =>
+      rw [hsc, hrc] at hpc
+      simp only [CiphPaired] at hpc
+      obtain ⟨hmk, hPd, hblk, hmac⟩ := hpc
+      subst hmk
+      rw [hsc] at hen hpl
+      simp only [OutC.addlen] at hpl
+      simp only at hen
+      have hinj := Except.ok.inj hen
+      simp only [Prod.mk.injEq] at hinj
+      obtain ⟨hcc, hw, ha⟩ := hinj
+      have hal : (4 + bodyB.length) % r.block = 0 := by
+        rw [hbl, hpl, ← hp.block]; exact classic_total_mod _ _ hb0
+      obtain ⟨hdr, rest, sd', hhl, hsp, hPd', hrun⟩ := read_classic W r se sd mk hPd
+        (by rw [← hp.block]; exact hblk) (by rw [← hp.macLen]; exact hmac) h4 bodyB hps hal t
+      obtain ⟨z', hf, hz⟩ := hfin (.classic sd' mk)
+        (if r.macLen > 0 then some ⟨r.seq, [], be32 bodyB.length ++ bodyB⟩ else none)
+      refine ⟨{ st := { r with ciph := .classic sd' mk, decomp := z', seq := nextSeq r.seq },
+                msg := ⟨c, body, r.seq⟩,
+                auth := if r.macLen > 0 then some ⟨r.seq, [], be32 bodyB.length ++ bodyB⟩ else none },
+              c, body, rfl, ?_, ?_, ?_, ?_⟩
+      · rw [← hw, hPeq, hp.seq, hp.macLen, hsp, readMessage_step r hdr rest hhl, hrc]
+        simp only
+        rw [hrun, hf]; rfl
+      · simp only; rw [hp.seq]
+      · simp only; rw [hauth, ← ha, hPeq, hp.seq, hp.macLen]
+      · rw [hst, ← hcc]
+        refine ⟨hp.block, hp.macLen, by simp only; rw [hp.seq], hp.kex, hp.blk4, ?_, hz⟩
+        simp only [CiphPaired]
+        exact ⟨trivial, by rw [hPeq]; exact hPd', by rw [W.ciph.blk_enc]; exact hblk, hmac⟩
+    | plain => rw [hsc, hrc] at hpc; exact absurd hpc (by simp [CiphPaired])
+    | etm _ _ => rw [hsc, hrc] at hpc; exact absurd hpc (by simp [CiphPaired])
+    | aead _ _ => rw [hsc, hrc] at hpc; exact absurd hpc (by simp [CiphPaired])
+  | etm se mk =>
+    cases hrc : r.ciph with
+    | etm sd mk' =>
+      rw [hsc, hrc] at hpc
+      simp only [CiphPaired] at hpc
+      obtain ⟨hmk, hPd, hblk, hmac⟩ := hpc
+      subst hmk
+      rw [hsc] at hen hpl
+      simp only [OutC.addlen] at hpl
+      simp only at hen
+      have hinj := Except.ok.inj hen
+      simp only [Prod.mk.injEq] at hinj
+      obtain ⟨hcc, hw, ha⟩ := hinj
+      simp only [hPeq, take4_be32_append, drop4_be32_append] at hcc hw ha
+      have hal : bodyB.length % r.block = 0 := by
+        rw [hbl, hpl, ← hp.block]; exact etm_body_mod _ _ hb0
+      have hbal : bodyB.length % W.blk se = 0 := by rw [hblk, hp.block]; exact hal
+      obtain ⟨hdr, rest, hhl, hsp, hrun⟩ := read_etm W r se sd mk hPd
+        (by rw [← hp.block]; exact hblk) (by rw [← hp.macLen]; exact hmac) h4 bodyB hps hal hpos t
+      obtain ⟨z', hf, hz⟩ := hfin (.etm (p.dec sd (p.enc se bodyB).2).1 mk)
+        (some ⟨r.seq, [], be32 bodyB.length ++ (p.enc se bodyB).2⟩)
+      refine ⟨{ st := { r with ciph := .etm (p.dec sd (p.enc se bodyB).2).1 mk, decomp := z', seq := nextSeq r.seq },
+                msg := ⟨c, body, r.seq⟩,
+                auth := some ⟨r.seq, [], be32 bodyB.length ++ (p.enc se bodyB).2⟩ },
+              c, body, rfl, ?_, ?_, ?_, ?_⟩
+      · rw [← hw, hp.seq, hp.macLen, hsp, readMessage_step r hdr rest hhl, hrc]
+        simp only
+        rw [hrun, hf]; rfl
+      · simp only; rw [hp.seq]
+      · simp only; rw [hauth, ← ha, hp.seq]
+      · rw [hst, ← hcc]
+        refine ⟨hp.block, hp.macLen, by simp only; rw [hp.seq], hp.kex, hp.blk4, ?_, hz⟩
+        simp only [CiphPaired]
+        exact ⟨trivial, (W.ciph.dec_enc se sd bodyB hPd hbal).2, by rw [W.ciph.blk_enc]; exact hblk, hmac⟩
+    | plain => rw [hsc, hrc] at hpc; exact absurd hpc (by simp [CiphPaired])
+    | classic _ _ => rw [hsc, hrc] at hpc; exact absurd hpc (by simp [CiphPaired])
+    | aead _ _ => rw [hsc, hrc] at hpc; exact absurd hpc (by simp [CiphPaired])
+  | aead k iv =>
+    cases hrc : r.ciph with
+    | aead k' iv0 =>
+      rw [hsc, hrc] at hpc
+      simp only [CiphPaired] at hpc
+      obtain ⟨hk, hiv0, hml⟩ := hpc
+      subst hk; subst hiv0
+      rw [hsc] at hen hpl
+      simp only [OutC.addlen] at hpl
+      simp only at hen
+      cases hi : incIv iv with
+      | error e => rw [hi] at hen; cases hen
+      | ok iv' =>
+        rw [hi] at hen
+        simp only at hen
+        have hinj := Except.ok.inj hen
+        simp only [Prod.mk.injEq] at hinj
+        obtain ⟨hcc, hw, ha⟩ := hinj
+        simp only [hPeq, take4_be32_append, drop4_be32_append] at hw ha
+        have hal : bodyB.length % r.block = 0 := by
+          rw [hbl, hpl, ← hp.block]; exact etm_body_mod _ _ hb0
+        obtain ⟨hdr, rest, hhl, hsp, hrun⟩ := read_aead W r k iv iv' (by rw [← hp.macLen]; exact hml) h4 bodyB hps hal hpos hi t
+        obtain ⟨z', hf, hz⟩ := hfin (.aead k iv')
+          (some ⟨r.seq, iv, be32 bodyB.length ++ p.aenc k iv bodyB (be32 bodyB.length)⟩)
+        refine ⟨{ st := { r with ciph := .aead k iv', decomp := z', seq := nextSeq r.seq },
+                  msg := ⟨c, body, r.seq⟩,
+                  auth := some ⟨r.seq, iv, be32 bodyB.length ++ p.aenc k iv bodyB (be32 bodyB.length)⟩ },
+                c, body, rfl, ?_, ?_, ?_, ?_⟩
+        · rw [← hw, hsp, readMessage_step r hdr rest hhl, hrc]
+          simp only
+          rw [hrun, hf]; rfl
+        · simp only; rw [hp.seq]
+        · simp only; rw [hauth, ← ha, hp.seq]
+        · rw [hst, ← hcc]
+          refine ⟨hp.block, hp.macLen, by simp only; rw [hp.seq], hp.kex, hp.blk4, ?_, hz⟩
+          simp only [CiphPaired]
+          exact ⟨trivial, trivial, hml⟩
+    | plain => rw [hsc, hrc] at hpc; exact absurd hpc (by simp [CiphPaired])
+    | classic _ _ => rw [hsc, hrc] at hpc; exact absurd hpc (by simp [CiphPaired])
+    | etm _ _ => rw [hsc, hrc] at hpc; exact absurd hpc (by simp [CiphPaired])
+
+/-! ## message sequences with key / compressor switches -/
+
+/-- the two halves of a switch operation are keyed alike -/
+def OpOk {p : Prims} (W : Laws p) : Op p → Prop
+  | .setCipher b m _ co ci => 4 ≤ b ∧ CiphPaired W b m co ci
+  | .setComp zo zi => ZP W zo zi
+  | _ => True
+
+theorem roundtrip_seq {p : Prims} (W : Laws p) (ops : List (Op p)) :
+    ∀ (s : Sender p) (r : Receiver p), PairedSt W s r → (∀ op ∈ ops, OpOk W op) →
+    ∀ s' w log, sendAll s ops = .ok (s', w, log) → ∀ t : Bytes,
+      (recvAll r ops (w ++ t)).msgs = msgsOf s.seq ops ∧ (recvAll r ops (w ++ t)).stop = none ∧
+      (recvAll r ops (w ++ t)).rest = t ∧ (recvAll r ops (w ++ t)).auths = log ∧
+      ∃ r', (recvAll r ops (w ++ t)).st = some r' ∧ PairedSt W s' r' := by
+  induction ops with
+  | nil =>
+    intro s r hp _ s' w log hs t
+    simp only [sendAll] at hs
+    have := Except.ok.inj hs
+    simp only [Prod.mk.injEq] at this
+    obtain ⟨h1, h2, h3⟩ := this
+    subst h1; subst h2; subst h3
+    exact ⟨rfl, rfl, rfl, rfl, r, rfl, hp⟩
+  | cons op ops ih =>
+    intro s r hp hok s' w log hs t
+    have hok' : ∀ op ∈ ops, OpOk W op := fun o ho => hok o (List.mem_cons_of_mem _ ho)
+    have hop : OpOk W op := hok op (List.mem_cons_self ..)
+    cases op with
+    | msg d rnd =>
+      simp only [sendAll] at hs
+      cases hsm : sendMessage s d rnd with
+      | error e => rw [hsm] at hs; cases hs
+      | ok o =>
+        rw [hsm] at hs
+        simp only at hs
+        cases hsa : sendAll o.st ops with
+        | error e => rw [hsa] at hs; cases hs
+        | ok res =>
+          obtain ⟨s1, w1, l1⟩ := res
+          rw [hsa] at hs
+          simp only at hs
+          have := Except.ok.inj hs
+          simp only [Prod.mk.injEq] at this
+          obtain ⟨h1, h2, h3⟩ := this
+          subst h1; subst h2; subst h3
+          obtain ⟨o', c, body, hd, hrun, hmsg, hauth, hp'⟩ := roundtrip1 W hp hsm (w1 ++ t)
+          have hseq' : o.st.seq = nextSeq s.seq := by
+            obtain ⟨_, _, _, _, _, _, _, _, hst⟩ := sendMessage_ok hsm
+            rw [hst]
+          obtain ⟨i1, i2, i3, i4, r', i5, i6⟩ := ih o.st o'.st hp' hok' s1 w1 l1 hsa t
+          rw [hseq'] at i1
+          simp only [recvAll, List.append_assoc, hrun]
+          refine ⟨?_, i2, i3, ?_, r', i5, i6⟩
+          · rw [i1, hmsg, hd]; simp [msgsOf]
+          · rw [i4, hauth]
+    | setCipher b m sd co ci =>
+      simp only [sendAll] at hs
+      simp only [recvAll]
+      have hp' : PairedSt W (s.setCipher b m sd co) (r.setCipher b m ci) :=
+        ⟨rfl, rfl, hp.seq, hp.kex, hop.1, hop.2, hp.comp⟩
+      exact ih _ _ hp' hok' s' w log hs t
+    | setComp zo zi =>
+      simp only [sendAll] at hs
+      simp only [recvAll]
+      have hp' : PairedSt W { s with comp := zo } { r with decomp := zi } :=
+        ⟨hp.block, hp.macLen, hp.seq, hp.kex, hp.blk4, hp.ciph, hop⟩
+      exact ih _ _ hp' hok' s' w log hs t
+    | resetSeq =>
+      simp only [sendAll] at hs
+      simp only [recvAll]
+      have hp' : PairedSt W { s with seq := 0 } { r with seq := 0 } :=
+        ⟨hp.block, hp.macLen, rfl, hp.kex, hp.blk4, hp.ciph, hp.comp⟩
+      have := ih _ _ hp' hok' s' w log hs t
+      simpa [msgsOf] using this
+    | kexDone =>
+      simp only [sendAll] at hs
+      simp only [recvAll]
+      have hp' : PairedSt W { s with kexDone := true } { r with kexDone := true } :=
+        ⟨hp.block, hp.macLen, hp.seq, rfl, hp.blk4, hp.ciph, hp.comp⟩
+      have := ih _ _ hp' hok' s' w log hs t
+      simpa [msgsOf] using this
 
 end PV.Packet
